@@ -40,6 +40,10 @@ type e2eCase struct {
 	Pin     bool       `json:"pin,omitempty"`   // run sx pinned to ONE cpu (runtime.NumCPU() == 1)
 	Opt     string     `json:"opt,omitempty"`   // the option the case combines the exclusion file with
 	Bad     string     `json:"bad,omitempty"`   // kind of the refused exclusion line
+	Env     []string   `json:"env,omitempty"`   // extra environment of the sx process
+	Decoy   string     `json:"decoy,omitempty"` // hex key (address, port) of the decoy listener nothing may contact
+	KillMS  int        `json:"kill_ms,omitempty"` // interrupt sx after that long (live mode never ends by itself)
+	SetSem  bool       `json:"set,omitempty"`   // judged as a set: every due key at least once, nothing else
 }
 
 // firstCPU is one CPU this process may run on (for taskset).
@@ -227,6 +231,9 @@ func runE2E(sx string, c *e2eCase, idx int) {
 	if c.Pin {
 		args = append(args, "taskset", "-c", firstCPU())
 	}
+	if len(c.Env) > 0 {
+		args = append(append(args, "env"), c.Env...)
+	}
 	args = append(append(args, sx), c.Argv...)
 	cmd := exec.Command("ip", args...)
 	if c.Stdin != "" {
@@ -236,6 +243,14 @@ func runE2E(sx string, c *e2eCase, idx int) {
 	cmd.Stderr = &stderr
 	done := make(chan error, 1)
 	go func() { done <- cmd.Run() }()
+	if c.KillMS > 0 {
+		go func() {
+			time.Sleep(time.Duration(c.KillMS) * time.Millisecond)
+			if cmd.Process != nil {
+				cmd.Process.Signal(syscall.SIGINT)
+			}
+		}()
+	}
 	select {
 	case err := <-done:
 		if err != nil {
@@ -395,6 +410,12 @@ func e2eCases(r *hlib.SplitMix64, n int) []e2eCase {
 	return cs[:n]
 }
 
+const tcpPorts = "20-22,23-25,24-27,100,26-26"
+const udpPorts = "53-54,55-56,55-57,123"
+
+var tcpPortList = []int{20, 21, 22, 23, 24, 25, 24, 25, 26, 27, 100, 26}
+var udpPortList = []int{53, 54, 55, 56, 55, 56, 57, 123}
+
 // packetCommands: every packet command of newRootCmd with the arguments a small scan needs.
 func packetCommands() [][]string {
 	ip4 := []string{"--gwmac", "02:00:00:00:00:02", "-a", tmpDir + "/empty.cache"}
@@ -408,13 +429,14 @@ func packetCommands() [][]string {
 	return [][]string{
 		{"arp"},
 		cat([]string{"icmp"}, ip4),
-		cat([]string{"udp"}, ip4, []string{"-p", "53,123"}),
-		cat([]string{"tcp"}, ip4, []string{"-p", "80-81"}),
-		cat([]string{"tcp", "syn"}, ip4, []string{"-p", "80-81"}),
-		cat([]string{"tcp", "fin"}, ip4, []string{"-p", "80-81"}),
-		cat([]string{"tcp", "null"}, ip4, []string{"-p", "80-81"}),
-		cat([]string{"tcp", "xmas"}, ip4, []string{"-p", "80-81"}),
-		cat([]string{"tcp", "--flags", "syn,ack"}, ip4, []string{"-p", "80-81"}),
+		// port lists with adjacent and overlapping ranges (the capture filter builder sees them before the generators do)
+		cat([]string{"udp"}, ip4, []string{"-p", udpPorts}),
+		cat([]string{"tcp"}, ip4, []string{"-p", tcpPorts}),
+		cat([]string{"tcp", "syn"}, ip4, []string{"-p", tcpPorts}),
+		cat([]string{"tcp", "fin"}, ip4, []string{"-p", tcpPorts}),
+		cat([]string{"tcp", "null"}, ip4, []string{"-p", tcpPorts}),
+		cat([]string{"tcp", "xmas"}, ip4, []string{"-p", tcpPorts}),
+		cat([]string{"tcp", "--flags", "syn,ack"}, ip4, []string{"-p", tcpPorts}),
 	}
 }
 
@@ -435,9 +457,9 @@ func cmdProto(c []string) (string, []int) {
 	case "icmp":
 		return "icmp", []int{0}
 	case "udp":
-		return "udp", []int{53, 123}
+		return "udp", udpPortList
 	}
-	return "tcp", []int{80, 81}
+	return "tcp", tcpPortList
 }
 
 // tableCases: every packet command on a /30, once normally and once pinned to one CPU.
@@ -531,8 +553,71 @@ func refusedCases(r *hlib.SplitMix64, n int) []e2eCase {
 			mkOK(c, optNames[(i+1)%3])
 		}
 	}
+	// application scans under a hostile environment: DOCKER_HOST and the proxy variables point at a decoy listener;
+	// every connection must go to a target, none to the decoy.  The targets are local addresses of the namespace
+	// with a listener on the scanned port; the decoy is another local address with its own port.
+	appCmds := [][]string{{"docker", "-p", "2375"}, {"elastic", "-p", "9200"}, {"socks", "-p", "1080"},
+		{"docker", "--proto", "https", "-p", "2376"}, {"elastic", "--proto", "https", "-p", "9243"}}
+	ta := o | 224
+	decoy := o | 250
+	dk := fmt.Sprintf("%s:9999", tgt.Dotted(decoy))
+	envs := map[string][]string{
+		"DOCKER_HOST": {"DOCKER_HOST=tcp://" + dk},
+		"HTTP_PROXY":  {"HTTP_PROXY=http://" + dk, "http_proxy=http://" + dk},
+		"HTTPS_PROXY": {"HTTPS_PROXY=http://" + dk, "https_proxy=http://" + dk},
+		"ALL_PROXY":   {"ALL_PROXY=socks5://" + dk, "all_proxy=socks5://" + dk},
+		"none":        nil,
+	}
+	mkEnv := func(c []string, env string) {
+		port := 0
+		fmt.Sscan(c[len(c)-1], &port)
+		var loc []string
+		var addrs []uint32
+		for j := uint32(0); j < 4; j++ {
+			addrs = append(addrs, ta+j)
+			loc = append(loc, tgt.Dotted(ta+j))
+		}
+		loc = append(loc, tgt.Dotted(decoy))
+		argv := append(append([]string{}, c...), "--exit-delay", "100ms", "-t", "400ms", "-w", "4", tgt.Dotted(ta)+"/30")
+		w := crossWant(addrs, []int{port})
+		name := c[0]
+		if len(c) > 3 {
+			name += "-https"
+		}
+		cs = append(cs, e2eCase{Kind: "e2e", Class: "appenv:" + name, Proto: fmt.Sprintf("listen:%d,9999", port), Argv: argv, Want: w, NWant: len(w),
+			Env: envs[env], Opt: env, Local: strings.Join(loc, ","), SetSem: true,
+			Decoy: hex.EncodeToString([]byte{byte(decoy >> 24), byte(decoy >> 16), byte(decoy >> 8), byte(decoy), 0x27, 0x0f}), Seed: int64(len(cs))})
+	}
+	envQuick := [][2]int{{0, 0}, {0, 1}, {1, 1}, {2, 3}, {3, 2}, {4, 2}, {1, 0}, {0, 4}}
+	envNames := []string{"DOCKER_HOST", "HTTP_PROXY", "HTTPS_PROXY", "ALL_PROXY", "none"}
+	for _, ce := range envQuick {
+		mkEnv(appCmds[ce[0]], envNames[ce[1]])
+	}
+	// arp in live mode with an exclusion list: the first passes are observed, then the scan is interrupted
+	mkLive := func(opt string) {
+		var addrs []uint32
+		for j := uint32(0); j < 16; j++ {
+			if j == 3 || (j >= 8 && j < 12) {
+				continue
+			}
+			addrs = append(addrs, o+j)
+		}
+		argv := append(append([]string{"arp"}, opts[opt]...), "--live", "250ms", "--exit-delay", "100ms", "--json", "--exclude", okFile, target)
+		w := crossWant(addrs, []int{0})
+		cs = append(cs, e2eCase{Kind: "e2e", Class: "exclude-live:arp", Proto: "arp", Argv: argv, Want: w, NWant: len(w), Opt: opt, KillMS: 700,
+			SetSem: true, Seed: int64(len(cs))})
+	}
+	mkLive("iface")
+	mkLive("none")
 	// the full table
 	if n > len(cs) {
+		for _, c := range appCmds {
+			for _, e := range envNames {
+				mkEnv(c, e)
+			}
+		}
+		mkLive("srcmac")
+		mkLive("rate")
 		for _, c := range pk {
 			for _, opt := range optNames {
 				for _, bad := range badKinds {
